@@ -191,6 +191,72 @@ def explore_subst(P, u, loop_limit=2):
     return it, paths, classes
 
 
+MACROARG_SET_FIELDS = ('name', 'next', 'tok', 'is_va_args')
+
+
+def explore_subst_shared(P, u, body_classes, loop_limit=2):
+    """paths of subst(body, args) where EVERY parameter token of the body names the same parameter (one MacroArg object,
+    as find_arg returns it for each occurrence of one name). Body tokens are restricted to `body_classes`. A MacroArg
+    comes from calloc in read_macro_args/read_macro_arg_one: members other than MACROARG_SET_FIELDS start as zero."""
+    from .lib_c09 import literals_compared, m_copy_token, copy_lazy_field, PARAM, OTHER, as_obj, tok_class_cell
+    for f in SUBST_ANCHORS:
+        if f not in u.functions:
+            raise AnalysisBroken('anchor function %s vanished from %s' % (f, U))
+    known = literals_compared(u.fn('subst')) + [PARAM, OTHER]
+    body_classes = [c for c in body_classes if c in known]
+
+    def cell_for(it, ctx, t):
+        return tok_class_cell(it, ctx, t, body_classes)
+
+    def m_equal(it, ctx, n, args):
+        t = as_obj(it, args[0], n)
+        s_ = args[1]
+        if not isinstance(t, Obj) or not isinstance(s_, str):
+            raise AnalysisBroken('equal() on a value the token model cannot follow at line %d' % n.line)
+        return View(cell_for(it, ctx, t), lambda c, s_=s_: 1 if c == s_ else 0, 'is%r' % s_)
+
+    def m_find_arg(it, ctx, n, args):
+        t = as_obj(it, args[1], n)
+        if not isinstance(t, Obj):
+            raise AnalysisBroken('find_arg() on a value the token model cannot follow at line %d' % n.line)
+        ma = getattr(ctx, 'shared_marg', None)
+        if ma is None:
+            ma = ctx.shared_marg = Obj('MacroArg', lazy=True, label='arg')
+        r = View(cell_for(it, ctx, t), lambda c, ma=ma: ma if c == PARAM else 0, 'param')
+        ctx.emit('call', 'find_arg', [args[0], t], n.line, r)
+        return r
+
+    def fresh(name):
+        def cut(it, ctx, n, args):
+            res = Obj('Token', lazy=True, label=ctx.fresh(name))
+            res.fields['at_bol'] = 1
+            res.fields['has_space'] = 0
+            res.meta['fresh'] = True
+            ctx.emit('call', name, args, n.line, res)
+            return res
+        return cut
+
+    def cut_rmao(it, ctx, n, args):
+        raise AnalysisBroken('read_macro_arg_one reached although no body token is __VA_OPT__')
+
+    def hook(it, ctx, o, f, t):
+        if o.tname == 'MacroArg' and f not in MACROARG_SET_FIELDS:
+            return 0
+        return copy_lazy_field(it, ctx, o, f, t)
+
+    it = PInterp(P, u, {'opaque': ['preprocess2', 'has_varargs', 'skip'],
+                        'cut': {'read_macro_arg_one': cut_rmao, 'stringize': fresh('stringize'), 'paste': fresh('paste')},
+                        'models': {'copy_token': m_copy_token, 'equal': m_equal, 'find_arg': m_find_arg},
+                        'loop_limit': loop_limit, 'track_stores': True, 'lazy_field': hook})
+
+    def mk(ctx):
+        body = Obj('Token', lazy=True, label='body')
+        ctx.body = body
+        return [body, Obj('MacroArg', lazy=True, label='args')]
+
+    return it, it.explore('subst', mk, max_paths=50000)
+
+
 class SubstPath:
     """object relations on one path of subst"""
 
